@@ -37,6 +37,12 @@ CASES = [
     ("np.log(z) ~ x", {"z", "x"}, {"x": ["x"]}),
     ("y ~ `w w` + x", {"y", "w w", "x"}, {"x": ["x"], "w w": ["w w"]}),
     ("y ~ {x * 2} + w", {"y", "x", "w"}, {"w": ["w"]}),
+    # transforms that estimate parameters, judged only for missing values in THEIR OWN variable (then 'pass' estimates from the
+    # complete rows, as 'drop' does; with missing values elsewhere the two policies legitimately see different rows - the
+    # statement speaks of plain variables and pointwise calls there)
+    ("y ~ center(x) + z", {"y", "x", "z"}, {"x": ["center(x)"]}),
+    ("y ~ scale(x) + w", {"y", "x", "w"}, {"x": ["scale(x)"]}),
+    ("y ~ z + center(x):z", {"y", "x", "z"}, {"x": ["center(x):z"]}),
 ]
 
 
